@@ -56,9 +56,11 @@ TraceRange == IsEvent("Range") /\ Range /\ (pf' = "ranged" => psize' = Ev.size) 
 TraceAsyncThreshold == IsEvent("AsyncThreshold") /\ AsyncThreshold /\ ObsOK
 TraceBlobCacheStall == IsEvent("BlobCacheStall") /\ BlobCacheStall /\ Rq \subseteq Hull(Cover(psize) \ fetched) /\ ObsOK
 \* the result is the one the driver imposed - unless it imposed a failure and no request was made that could fail
+\* (a failure imposed through the chunk cache is the environment choice "cachefail")
+Cause == IF "cause" \in DOMAIN Ev /\ Ev.cause = "cache" THEN "cachefail" ELSE Ev.r
 Imposed == Ev.r = Ev.want \/ (Ev.want = "fail" /\ Ev.r = "ok" /\ Rq = {})
 TraceBlobCache == IsEvent("BlobCache") /\ Imposed /\ BlobCacheG(Ev.r, Got, Rq) /\ ObsOK
-TraceReaderCache == IsEvent("ReaderCache") /\ Imposed /\ ReaderCacheG(Ev.r, Got, L2(MarkFull(lst, RangeFiles(psize))), Rq) /\ ObsOK
+TraceReaderCache == IsEvent("ReaderCache") /\ Imposed /\ ReaderCacheG(Cause, Got, L2(MarkFull(lst, RangeFiles(psize))), Rq) /\ ObsOK
 TracePrefetchEnd == IsEvent("PrefetchEnd") /\ PrefetchEndG(L2(IF BgResumes(prio > 0) THEN BgLocal ELSE lst)) /\ Ev.res = pfres /\ Ev.p = runner /\ ObsOK
 TracePrefetchReturn == IsEvent("PrefetchReturn") /\ PrefetchReturn(Ev.p) /\ Ev.res = "ok" /\ ObsOK
 TraceWaitCall == IsEvent("WaitCall") /\ WaitCall(Ev.w) /\ ObsOK
@@ -66,7 +68,7 @@ TraceWaitReturn == IsEvent("WaitReturn") /\ WaitReturn(Ev.w) /\ ObsOK
 TraceWaitTimeout == IsEvent("WaitTimeout") /\ WaitTimeout(Ev.w) /\ ObsOK
 TraceBgCall == IsEvent("BgCall") /\ BgCall(Ev.b) /\ last'.won = Ev.won /\ ObsOK
 TraceBgStall == IsEvent("BgStall") /\ BgStallG(L2(BgLocal)) /\ ObsOK
-TraceBgFinish == IsEvent("BgFinish") /\ Imposed /\ BgFinishG(Ev.r, Got, L2(MarkFull(lst, BgFiles)), Rq) /\ Ev.b = brunner /\ ObsOK
+TraceBgFinish == IsEvent("BgFinish") /\ Imposed /\ BgFinishG(Cause, Got, L2(MarkFull(lst, BgFiles)), Rq) /\ Ev.b = brunner /\ ObsOK
 TraceBgReturn == IsEvent("BgReturn") /\ BgReturn(Ev.b) /\ Ev.res = "ok" /\ ObsOK
 TracePrioBegin == IsEvent("PrioBegin") /\ PrioBegin /\ ObsOK
 TracePrioEnd == IsEvent("PrioEnd") /\ PrioEndG(L2(IF BgResumes(PfPrio) THEN BgLocal ELSE lst)) /\ ObsOK
